@@ -1,6 +1,7 @@
 """C13 — run() is idempotent; monotone re-runs equal a fresh run.
 
-Two halves: plain relations (Engine/Rerun.v; below) and lattice relations (LatEngine/LatRerun.v; gen/c13_lat.py)."""
+Halves: plain relations (Engine/Rerun.v; below), lattice relations (LatEngine/LatRerun.v; gen/c13_lat.py), lattices WITH
+aggregation / negation (LatEngine/LatAggRerun.v; gen/c13_latagg.py), BYODS relations (gen/c13_byods.py)."""
 import json
 
 from .. import c13_lat, engine_tie, gen_dl, lib, prog
@@ -30,6 +31,9 @@ def gen_cases(tier, seed):
 def tie(tier, seed, replay):
     # lattice half first: its corpus (the duplicate-key finding) runs before everything else
     lat = c13_lat.tie_part(tier, seed)
+    # lattices read by aggregates / negation of a later stratum: run; run and run; push; run; run (gen/c13_latagg.py)
+    from .. import c13_latagg
+    la = c13_latagg.run(tier, seed)
     cases = gen_cases(tier, seed)
     results = []
     for i in range(0, len(cases), 96):
@@ -89,10 +93,11 @@ def tie(tier, seed, replay):
     idx = indexed_tie.run_tie(tier, seed + 1000, tag="indexed_c13" + ("" if tier == "quick" else "t"))
     mism += idx["mismatches"]
     sample = [dict(program=r["text"], script=r["case"]["scripts"][-1], impl=[{k: v[1][:5] for k, v in prog.canon_snap(s).items()} for s in r["impl"][-1]["snaps"]] if r["impl"] and "snaps" in r["impl"][-1] else r["impl"]) for r in results[:2]]
-    return dict(evaluations=sum(len(r["case"]["scripts"]) for r in results) + lat["evaluations"] + by["evaluations"], distinct_nontrivial=len(distinct) + lat["distinct"] + by["distinct"],
-                rule="PLAIN HALF: random programs (2/3 positive C01-style, 1/3 stratified with aggregates / negation) x histories run;run | run;push;run;push;run | run(empty);push;run;run with facts pushed into any relation incl. derived ones; every snapshot compared; non-trivial = history with at least two runs; distinct = distinct (program, history).  BYODS HALF (gen/c13_byods.py): programs of the C10 / C11 / C12 generators (eqrel, trrel, trrel_uf relations, binary and ternary) x histories run;run | run;push;run | run;run;push;run | run(empty);push;run;push;run, each compared with the fresh run of the same program on the union of the inputs (plain relations as sets; no model column).  " + lat["rule"],
-                samples=sample, distribution=dict(programs=len(results), history_shapes=hist, with_aggregates=sum(1 for r in results if r["case"]["agg"]), **lat["distribution"]),
-                mismatches=lat["mismatches"] + mism,
-                trusted_base=["FRONT hook + gen/dl.py plan translation; gen/prog.py generated crates", "Engine/Rerun.v models the program value between runs (stored indices kept, rows appended)"] + lat["trusted_base"],
+    return dict(evaluations=sum(len(r["case"]["scripts"]) for r in results) + lat["evaluations"] + by["evaluations"] + la["evaluations"], distinct_nontrivial=len(distinct) + lat["distinct"] + by["distinct"] + la["distinct"],
+                rule="PLAIN HALF: random programs (2/3 positive C01-style, 1/3 stratified with aggregates / negation) x histories run;run | run;push;run;push;run | run(empty);push;run;run with facts pushed into any relation incl. derived ones; every snapshot compared; non-trivial = history with at least two runs; distinct = distinct (program, history).  BYODS HALF (gen/c13_byods.py): programs of the C10 / C11 / C12 generators (eqrel, trrel, trrel_uf relations, binary and ternary) x histories run;run | run;push;run | run;run;push;run | run(empty);push;run;push;run, each compared with the fresh run of the same program on the union of the inputs (plain relations as sets; no model column).  " + lat["rule"] + ".  " + la["rule"],
+                samples=sample, distribution=dict(programs=len(results), history_shapes=hist, with_aggregates=sum(1 for r in results if r["case"]["agg"]), **lat["distribution"], **la["distribution"]),
+                mismatches=lat["mismatches"] + la["mismatches"] + mism,
+                trusted_base=["FRONT hook + gen/dl.py plan translation; gen/prog.py generated crates", "Engine/Rerun.v models the program value between runs (stored indices kept, rows appended)",
+                              "gen/c04_lat.py oracle and gen/c04_latmodel.py plan translation (shared with C04); LatEngine/LatAggRerunScript.v lat_agg_script drives LatAggEval.arun_plan through the history"] + lat["trusted_base"],
                 assumptions=["facts pushed between runs are appended to the public Vec fields, as a user would"] + lat["assumptions"],
-                extra=dict(cases_skipped_model_too_slow=nskipped, parallel_histories=npar, indexed_engine_vs_real_index_fields=dict(idx["coverage"], histories=idx["evaluations"], rule=idx["rule"]), byods_histories=by["evaluations"], byods_distribution=by["distribution"], **lat["extra"]))
+                extra=dict(cases_skipped_model_too_slow=nskipped, parallel_histories=npar, indexed_engine_vs_real_index_fields=dict(idx["coverage"], histories=idx["evaluations"], rule=idx["rule"]), byods_histories=by["evaluations"], byods_distribution=by["distribution"], **lat["extra"], **la["extra"]))
